@@ -61,16 +61,17 @@ Theorem C06_folded_value_is_the_value : forall rho e q, cfold e = Some q -> eval
 Proof. exact cfold_sound. Qed.
 Print Assumptions C06_folded_value_is_the_value.
 
-(* a port whose declared size is a declared PARAMETER of the routine (input_params: [N], port size: N) yields the constraint
-   `#port = N`: the incoming size is compared with the parameter's value (finding F25: it used to define N instead, the
-   parameter then overrode that definition, and nothing was ever compared) *)
-Theorem C06_port_sized_by_a_parameter_is_checked_against_it : forall r r',
+(* a port whose declared size is a declared PARAMETER or LOCAL VARIABLE of the routine (input_params: [N], port size: N;
+   local_variables: {L: 2*M}, port size: L) yields the constraint `#port = N`: the incoming size is compared with the value
+   the routine gives the name (findings F25, F26: the port used to DEFINE the name instead -- the parameter then overrode
+   that definition, the user's local definition became dead code -- and nothing was ever compared) *)
+Theorem C06_port_sized_by_a_declared_name_is_checked_against_it : forall r r',
   introduce_port_variables_node r = Ok r' ->
   forall p s, In p (rports r) -> p_dir p <> DOut -> p_size p = ESym s -> s <> hash_name (p_name p) ->
-              mem s (rparams r) = true ->
+              (mem s (rparams r) || mem s (keys (rlocals r))) = true ->
               In (mk_constraint (ESym (hash_name (p_name p))) (ESym s)) (rconstraints r').
 Proof. exact ipv_parameter_sized_port. Qed.
-Print Assumptions C06_port_sized_by_a_parameter_is_checked_against_it.
+Print Assumptions C06_port_sized_by_a_declared_name_is_checked_against_it.
 
 (* Max / Min of terms that differ by constants are worked out like the symbolic backend does (Max(N + 2, N) is N + 2): a port
    fed max(N + 2, N) - N qubits against a declaration of 6 is a VIOLATED constraint, against 2 a satisfied one *)
